@@ -12,6 +12,11 @@ run     : on random catgen catalogs (snapshot with cleaning files, light cone), 
             value term (loader closure applications and dtype casts) which the harness evaluates with the
             real closures on catgen's raw arrays and compares bit for bit with the loaded column
                                                                                               -> disagree
+          * passthrough mode (`passthrough=True`, snapshot catalogs): 'all', `['N']` and random lists of raw / cleaned
+            raw columns (index columns, repeats, unknown names; any order) x cleaned on/off x subsamples off /
+            dict(A, rvint) / dict(B, packedpid) / True (a fresh dict per load): every returned column bytewise equal
+            to the `fields='all'` passthrough load and to catgen's raw array; no valid request raises; the model
+            (`loadpt`) predicts fields, dependency info, final columns, dtypes and values          -> fail / disagree
           * edge requests (repeats, unknown / wrong-kind names, empty lists; fixed list + random): the real
             class, the model and `validRequest` (the guard of the theorem no_request_dependent_failure, evaluated
             by the driver) must agree on accept / reject; a request the guard accepts and the real class
@@ -34,6 +39,11 @@ THEOREMS = [
     'AbacusVerif.Fields.datamodel_provides',
     'AbacusVerif.Fields.all_and_defaults_valid',
     'AbacusVerif.Fields.snapshot_constructs',
+    'AbacusVerif.Fields.passthrough_table',
+    'AbacusVerif.Fields.passthrough_column_independent',
+    'AbacusVerif.Fields.passthrough_column_independent_pair',
+    'AbacusVerif.Fields.passthrough_no_request_dependent_failure',
+    'AbacusVerif.Fields.pt_datamodel_files',
     'AbacusVerif.Fields.setupFields_index_cols',
     'AbacusVerif.Fields.generated_wf',
     'AbacusVerif.Fields.generated_wf2',
@@ -222,6 +232,10 @@ class TermEval:
             name, args = t[1], t[2]
             if name.startswith('new:'):
                 raise KeyError(name)
+            if name.startswith('raw:'):          # passthrough: the raw column itself
+                v = np.asarray(self.raw[name[4:]])
+                self.memo[key] = v
+                return v
             e = self.byname[name]
             vals = [self.ev(a) for a in args]
 
@@ -345,6 +359,17 @@ def flush_model(ctx, world, te, lines_meta):
     lines_meta.clear()
 
 
+def shared_raw_pairs(entries):
+    """(c, d): c's own raw column (same name) is also read by the loader of d"""
+    out = []
+    for e in entries:
+        if e['name'] in e['rawDeps']:
+            for o in entries:
+                if o['name'] != e['name'] and e['name'] in (o['rawDeps'] + o.get('rawAll', [])):
+                    out.append((e['name'], o['name']))
+    return out
+
+
 def special_columns(entries):
     return [e['name'] for e in entries if e['haloDeps'] or e['group']]
 
@@ -391,6 +416,31 @@ def run_world(ctx, world, dts, entries, n_subsets, alone_all_modes, pairs):
             if not alone_all_modes and world.layout == 'snap' and not cleaned and name not in special and rng.random() < 0.75:
                 continue
             check_request(ctx, world, dts, [name], cleaned, '-', te, lm)
+    flush_model(ctx, world, te, lm)
+    # two columns computed from the same raw column, in both orders (a loader must not alter the raw table that a
+    # later loader reads: fields are loaded in reverse request order)
+    shared = shared_raw_pairs(entries)
+    for _, cleaned in modes_of(world):
+        names = valid_names(dts, world.layout, cleaned)
+        groups = {}
+        for c, d in shared:
+            if c in names and d in names:
+                groups.setdefault(c, []).append(d)
+        for c, ds in groups.items():
+            picks = ds if pairs else [ds[int(rng.integers(0, len(ds)))]]
+            if not pairs and not cleaned and world.layout == 'snap':
+                continue                       # quick tier: one mode per catalog is enough
+            for d in picks:
+                check_request(ctx, world, dts, [c, d], cleaned, '-', te, lm)
+                check_request(ctx, world, dts, [d, c], cleaned, '-', te, lm)
+    flush_model(ctx, world, te, lm)
+    # one index column of a loaded subsample without its partner
+    for _, cleaned in modes_of(world):
+        idx = [(['npstartA'], 'A'), (['npoutB', 'N'], 'AB')] if world.layout != 'lc' else [(['npstartA'], 'A')]
+        if cleaned and world.layout != 'lc':
+            idx += [(['npstartA_merge'], 'A'), (['npoutB_merge', 'npstartB'], 'B')]
+        for fields, sub in idx:
+            check_request(ctx, world, dts, fields, cleaned, sub, te, lm)
     flush_model(ctx, world, te, lm)
     # a column with nothing else but a subsample selection (the automatic index / merge columns)
     for _, cleaned in modes_of(world):
@@ -481,6 +531,148 @@ def run_edges(ctx, worlds, dts, n_random):
                          case, 'invalid', cat.halos.colnames)
 
 
+# --------------------------------------------------------------------------- passthrough mode
+
+# a FRESH dict for every load: the reader pops keys from the user's `subsamples` dict
+PT_SUBS = {'-': lambda: False, 'A': lambda: dict(A=True, rvint=True), 'B': lambda: dict(B=True, packedpid=True),
+           'AB': lambda: True}
+
+
+def dt_str(arr):
+    a = np.asarray(arr)
+    return '%s%d%s' % (a.dtype.kind, a.dtype.itemsize * 8, ''.join('x%d' % n for n in a.shape[1:]))
+
+
+def file_schema(world):
+    """column names in FILE order with their dtypes, read back from the first halo_info / cleaned_halo_info file"""
+    if not hasattr(world, '_schema'):
+        import asdf
+        out = []
+        for key in ('halo_info', 'clean_info'):
+            with asdf.open(world.cat.slabs[0].files[key], lazy_load=True, memmap=False) as af:
+                out.append([(k, dt_str(af['data'][k])) for k in af['data']])
+        world._schema = tuple(out)
+    return world._schema
+
+
+def load_pt(ctx, world, fields, cleaned, sub):
+    import catgen
+    key = ('pt', json.dumps(fields), cleaned, sub)
+    if key in world.cache:
+        return world.cache[key]
+    try:
+        c = catgen.load(world.cat, fields=list(fields) if not isinstance(fields, str) else fields, cleaned=cleaned,
+                        passthrough=True, subsamples=PT_SUBS[sub]())
+        res = ('ok', c)
+    except Exception as ex:
+        res = ('err', ex)
+    ctx.count('loads')
+    ctx.count('passthrough:loads')
+    if isinstance(fields, str):
+        world.cache[key] = res
+    return res
+
+
+def model_line_pt(world, fields, cleaned, sub):
+    rawf, cleanf = file_schema(world)
+    req = fields if isinstance(fields, str) else 'list:' + (','.join(fields) if fields else '-')
+    ab = {'-': '-', 'A': 'A', 'B': 'B', 'AB': 'A,B'}[sub]
+    return 'loadpt %s %d %s %s %s' % (req, int(cleaned), ab, ','.join('%s:%s' % p for p in rawf),
+                                     ','.join('%s:%s' % p for p in cleanf))
+
+
+def pt_available(world, cleaned):
+    rawf, cleanf = file_schema(world)
+    return [n for n, _ in rawf] + ([n for n, _ in cleanf] if cleaned else [])
+
+
+def check_pt_request(ctx, world, fields, cleaned, sub, te, lines_meta, expect_valid=True):
+    case = dict(layout='snap', catseed=world.catseed, cleaned=bool(cleaned), subsamples=sub, fields=fields, passthrough=True)
+    ctx.case(case, nontrivial=True)
+    ctx.count('passthrough:%s:sub=%s' % ('cleaned' if cleaned else 'uncleaned', sub))
+    res = load_pt(ctx, world, fields, cleaned, sub)
+    lines_meta.append((model_line_pt(world, fields, cleaned, sub), case, res))
+    status, cat = res
+    if not expect_valid:
+        return
+    if status != 'ok':
+        ctx.fail('passthrough: a valid request raises %s' % type(cat).__name__, case, repr(cat)[:300], 'a catalog',
+                 key='c02:passthrough-raises:%s' % type(cat).__name__)
+        return
+    avail = pt_available(world, cleaned)
+    requested = avail if fields == 'all' else [n for n in dict.fromkeys(fields) if n in avail]
+    truth = dict(world.raw)
+    truth.update(world.clean)
+    for name in requested:
+        m = re.fullmatch(r'np(?:start|out)([AB])_merge', name)
+        if m and cleaned and m[1] in sub:
+            continue                                   # consumed by the re-indexing
+        if name not in cat.halos.colnames:
+            ctx.fail('passthrough: a requested raw column is missing from the result', dict(case, column=name),
+                     cat.halos.colnames, name, key='c02:passthrough-missing-column')
+            continue
+        got = snapshot(cat.halos[name])
+        if name in INDEX_COLS and name[-1] in sub:
+            rs, rc = load_pt(ctx, world, 'all', cleaned, sub)
+            refs = [("fields='all' (passthrough), same subsamples", snapshot(rc.halos[name]) if rs == 'ok' else None)]
+        else:
+            rs, rc = load_pt(ctx, world, 'all', cleaned, '-')
+            refs = [("fields='all' (passthrough), no subsamples", snapshot(rc.halos[name]) if rs == 'ok' else None),
+                    ('the raw column written by catgen', snapshot(truth[name]))]
+        if rs != 'ok':
+            ctx.fail('passthrough: a valid request raises %s' % type(rc).__name__, dict(case, fields='all'), repr(rc)[:300],
+                     'a catalog', key='c02:passthrough-raises:%s' % type(rc).__name__)
+            continue
+        for desc, ref in refs:
+            ctx.count('column-comparisons')
+            if not same(got, ref):
+                ctx.fail('passthrough: column %s differs from %s' % (name, desc), dict(case, column=name),
+                         {'dtype': got[0], 'shape': got[1], 'values': np.asarray(cat.halos[name])[:3].tolist()},
+                         {'dtype': ref[0], 'shape': ref[1]}, key='c02:passthrough-value-differs')
+
+
+def random_pt_request(rng, world, cleaned):
+    rawf, cleanf = file_schema(world)
+    pool = [n for n, _ in rawf] + [n for n, _ in cleanf] + ['foo']
+    index = ['N', 'N_total', 'npstartA', 'npoutA', 'npstartB', 'npoutB', 'npstartA_merge', 'npoutB_merge']
+    k = int(rng.integers(1, 7))
+    picks = [pool[int(i)] for i in rng.integers(0, len(pool), k)]
+    if rng.random() < 0.5:
+        picks.append(index[int(rng.integers(0, len(index)))])
+    if rng.random() < 0.3:
+        picks.append(picks[int(rng.integers(0, len(picks)))])
+    order = rng.permutation(len(picks))
+    return [picks[i] for i in order]
+
+
+def run_passthrough(ctx, world, n_random):
+    rng = ctx.rng
+    te = TermEval(world, ctx)
+    lm = []
+    subs = ['-', 'A', 'B', 'AB']
+    for cleaned in (True, False):
+        for sub in subs:
+            check_pt_request(ctx, world, 'all', cleaned, sub, te, lm)
+        # a column that is not an index column, with every subsample selection (the defect repaired in 7d0940d)
+        for sub in subs[1:]:
+            check_pt_request(ctx, world, ['N'], cleaned, sub, te, lm)
+    flush_model(ctx, world, te, lm)
+    done = 0
+    while done < n_random:
+        cleaned = bool(rng.integers(0, 2))
+        sub = subs[int(rng.integers(0, 4))]
+        fields = random_pt_request(rng, world, cleaned)
+        valid = sub != '-' or any(n in pt_available(world, cleaned) for n in fields)
+        if not valid:
+            continue            # an empty resolved field list is not a valid request
+        check_pt_request(ctx, world, fields, cleaned, sub, te, lm)
+        done += 1
+    # requests that resolve to nothing: model and real class must both reject
+    for cleaned, fields in ((False, ['haloindex']), (True, ['foo']), (False, []), (True, 'DEFAULT_FIELDS')):
+        check_pt_request(ctx, world, fields, cleaned, '-', te, lm, expect_valid=False)
+    flush_model(ctx, world, te, lm)
+
+
 def corpus_cases():
     from vcommon import CORPUS
     out = []
@@ -498,7 +690,10 @@ def run_case(ctx, c, dts, entries, worlds):
     w = worlds[key]
     te = TermEval(w, ctx)
     lm = []
-    check_request(ctx, w, dts, c['fields'], c['cleaned'], c['subsamples'], te, lm)
+    if c.get('passthrough'):
+        check_pt_request(ctx, w, c['fields'], c['cleaned'], c['subsamples'], te, lm)
+    else:
+        check_request(ctx, w, dts, c['fields'], c['cleaned'], c['subsamples'], te, lm)
     flush_model(ctx, w, te, lm)
 
 
@@ -525,6 +720,7 @@ def run(ctx):
     snap = World(ctx, 'snap0', 'snap', int(rng.integers(0, 2 ** 31)))
     lc = World(ctx, 'lc0', 'lc', int(rng.integers(0, 2 ** 31)))
     run_edges(ctx, {'snap': snap, 'lc': lc}, dts, ctx.pick(6, 150))
+    run_passthrough(ctx, snap, ctx.pick(14, 200))
     if ctx.quick:
         run_world(ctx, snap, dts, entries, n_subsets=40, alone_all_modes=False, pairs=False)
         run_world(ctx, lc, dts, entries, n_subsets=15, alone_all_modes=True, pairs=False)
@@ -539,6 +735,7 @@ def intensify(ctx):
     dts, entries = ctx.loader_table
     rng = ctx.rng
     snap = World(ctx, 'isnap', 'snap', int(rng.integers(0, 2 ** 31)))
+    run_passthrough(ctx, snap, 100)
     run_world(ctx, snap, dts, entries, n_subsets=150, alone_all_modes=True, pairs=True)
 
 
@@ -547,4 +744,5 @@ def replay(ctx, doc):
     _ensure_table(ctx)
     dts, entries = ctx.loader_table
     c = doc['failure']['case'] if 'failure' in doc else doc
-    run_case(ctx, {k: c[k] for k in ('layout', 'catseed', 'cleaned', 'subsamples', 'fields')}, dts, entries, {})
+    run_case(ctx, {k: c[k] for k in ('layout', 'catseed', 'cleaned', 'subsamples', 'fields', 'passthrough') if k in c},
+             dts, entries, {})
